@@ -520,6 +520,25 @@ func suiteStrFun(o *Out, thorough bool, seed int64) {
 				}
 			}
 		}
+		// pads alone, far beyond the sizes of the full sweep below (a clamp "against absurd widths" sits anywhere): powers
+		// of two and of ten up to 128 MiB, each with its neighbours
+		for _, n := range []int{1<<22 + 1, 1 << 23, 1<<23 + 1, 10000000, 1<<24 - 1, 1 << 24, 1<<24 + 1, 1<<24 + 2, 1<<25 + 1, 1<<26 + 5, 100000007, 1<<27 + 3} {
+			for _, f := range []string{"lpad", "rpad"} {
+				sv := "7x"
+				nt := fmt.Sprintf("NOP\tpadsizes\t%d:%s", n, f)
+				o.Case(nt, "-", true)
+				v, err := evalBig(f+"(s, '0', n)", map[string]interface{}{"s": sv, "n": n})
+				str, ok := v.(string)
+				if err != nil || !ok {
+					o.Fail(nt, fmt.Sprintf("%s(%q, '0', %d) failed: %v", f, sv, n, err))
+					continue
+				}
+				okEnds := (f == "lpad" && strings.HasSuffix(str, sv) && strings.HasPrefix(str, "000")) || (f == "rpad" && strings.HasPrefix(str, sv) && strings.HasSuffix(str, "000"))
+				if len(str) != n || !okEnds || strings.Count(str, "0") != n-len(sv) {
+					o.Fail(nt, fmt.Sprintf("%s(%q, '0', %d) has length %d (%d pad characters) and is not the padded string of exactly the requested length", f, sv, n, len(str), strings.Count(str, "0")))
+				}
+			}
+		}
 		sizes := []int{255, 256, 4095, 4096, 65535, 65536, 65537, 1000000, 1000001, 1 << 20, 1<<20 + 1, 1<<20 + 2, 1<<20 + 7, 1500000, 1 << 21, 3000001}
 		if thorough {
 			sizes = append(sizes, 1<<24, 1<<24+3, 1<<25+1, 50000000)
